@@ -20,7 +20,7 @@ CONSTANTS
   RichBal = 1000
   Depth2 = TRUE
   Pairs = TRUE
-  GrantUsed <- GrantU_report
+  GrantUsed <- GrantU_report2
 SPECIFICATION Spec
 VIEW View
 INVARIANTS TypeOK ExemptSound ExemptComplete
